@@ -38,12 +38,23 @@ def open_findings(pid: str):
     return [f for f in load()["findings"] if f.get("status", "open") == "open" and pid in f["properties"]]
 
 
+def _import_all_props():
+    import glob
+    import importlib
+
+    for p in sorted(glob.glob(os.path.join(VERIF_DIR, "vf", "props", "c*.py"))):
+        importlib.import_module("vf.props." + os.path.basename(p)[:-3])
+
+
 def classify(pid: str, case, signature: str, detail):
     if os.environ.get("VERIF_NO_KNOWN"):
         return None
     for f in open_findings(pid):
         m = f["matcher"]
         fn = MATCHERS.get(m["name"])
+        if fn is None:
+            _import_all_props()
+            fn = MATCHERS.get(m["name"])
         if fn is None:
             raise RuntimeError(f"known_findings.json names unknown matcher {m['name']}")
         try:
@@ -68,3 +79,22 @@ def signature_and_src_regex(case, signature, detail, sig_regex, src_regex, field
     """failure signature matches sig_regex and the input text matches src_regex"""
     text = case.get(field, "") if isinstance(case, dict) else ""
     return re.search(sig_regex, signature) is not None and re.search(src_regex, text, re.S) is not None
+
+
+LONE_BACKSLASH = re.compile(r"(?m)^[ \t\f]*\\\r?\n")
+
+
+@matcher
+def continuation_first_on_line(case, signature, detail, sig_regex=".*"):
+    """D40: some physical line's first non-blank character is a backslash continuation"""
+    return LONE_BACKSLASH.search(_src(case)) is not None and re.match(sig_regex, signature) is not None
+
+
+@matcher
+def comment_after_continuation_at_eof(case, signature, detail, sig_regex=".*"):
+    """D41: input ends, without newline, in a comment line that continues a backslash-continued statement"""
+    src = _src(case)
+    lines = src.split("\n")
+    if len(lines) < 2 or not lines[-1].strip().startswith("#"):
+        return False
+    return lines[-2].rstrip("\r").endswith("\\") and re.match(sig_regex, signature) is not None
